@@ -77,7 +77,19 @@ pub fn record(args: &[String]) {
 				"super" => (x0, z0, x0 + z0),
 				_ => (x0, 0.0, 0.0),
 			};
-			let (Some(mut m1), Some(mut m2), Some(mut m3)) = (mk(kind, &p, i1, vol0), mk(kind, &p, i2, vol0), mk(kind, &p, i3, vol0)) else { continue };
+			// Correct floating-point code is exactly invariant under scaling of its inputs by a power of two: some programs run the
+			// real methods on values scaled by 2^e and log the unscaled values (an absolute constant hidden in the code shows up)
+			let e: i32 = if cfg!(feature = "value_type_f32") { 0 } else { [0, 0, -60, 0, 50, 0, -45][((seed + r * 3 + ki as u64) % 7) as usize] };
+			let k2 = 2f64.powi(e);
+			let (Some(mut m1), Some(mut m2), Some(mut m3)) = (mk(kind, &p, i1 * k2, vol0), mk(kind, &p, i2 * k2, vol0), mk(kind, &p, i3 * k2, vol0)) else { continue };
+			// a stream that repeats with a period dividing the window length (the window content recurs exactly)
+			let cycle: Option<Vec<f64>> = if rng.chance(0.15) && n >= 2 && n <= 40 {
+				let pl = *rng.pick(&[2u64, 3, n, n / 2]).max(&1);
+				let pl = if n % pl == 0 { pl } else { n };
+				Some((0..pl).map(|_| g.scalar()).collect())
+			} else {
+				None
+			};
 			tw.ev(json!({"ev":"law_new","law":law,"kind":kind,"n":n,"a":fx(a),"b":fx(b),"init":fx(x0)}));
 			// plateaus whose length sits right at the window length (n - 1, n, n + 1 unchanged inputs between moves)
 			let (mut hold, mut xprev, mut zprev) = (0u64, x0, z0);
@@ -90,15 +102,15 @@ pub fn record(args: &[String]) {
 				}
 				let held = hold > 0;
 				hold = hold.saturating_sub(1);
-				let x = if i == 0 || law == "const" { x0 } else if held { xprev } else { g.scalar() };
+				let x = if i == 0 || law == "const" { x0 } else if let Some(c) = &cycle { c[(i % c.len() as u64) as usize] } else if held { xprev } else { g.scalar() };
 				let z = if i == 0 { z0 } else if held && rng.chance(0.5) { zprev } else { g2.scalar() };
 				xprev = x;
 				zprev = z;
 				let vol = if i == 0 { vol0 } else if rng.chance(0.1) { 0.0 } else { (rng.unit() * 50.0).floor() + 1.0 };
-				let y1 = step(&mut m1, kind, x, vol);
+				let y1 = step(&mut m1, kind, x * k2, vol) / k2;
 				let (y2, y3, zz) = match law {
-					"affine" => (step(&mut m2, kind, a * x + b, vol), 0.0, 0.0),
-					"super" => (step(&mut m2, kind, z, vol), step(&mut m3, kind, x + z, vol), z),
+					"affine" => (step(&mut m2, kind, (a * x + b) * k2, vol) / k2, 0.0, 0.0),
+					"super" => (step(&mut m2, kind, z * k2, vol) / k2, step(&mut m3, kind, (x + z) * k2, vol) / k2, z),
 					_ => (0.0, 0.0, 0.0),
 				};
 				if !(y1.is_finite() && y2.is_finite() && y3.is_finite()) {
